@@ -4081,7 +4081,16 @@ def _fix_duplicate_regular_imports(source: str) -> str:
     replacements = {}
     removals = set()
 
+    # A name that something else binds as well may have another value when it is imported again
+    rebound_names = {node.id for node in core.walk(root, ast.Name(ctx=(ast.Store, ast.Del)))}
+    rebound_names |= {
+        node.name
+        for node in core.walk(root, (ast.FunctionDef, ast.AsyncFunctionDef, ast.ClassDef))
+    }
+
     for (name, asname), nodes in import_nodes.items():
+        if asname.split(".")[0] in rebound_names:
+            continue
         if len(nodes) > 1:
             for node in nodes[1:]:
                 new_aliases = {
